@@ -7,7 +7,7 @@ namespace Iggy.Log
 
 /-! ## consecutiveFrom -/
 
-theorem consecutiveFrom_append {c : Nat} {l1 l2 : List Msg} :
+theorem consecutiveFrom_append_iff {c : Nat} {l1 l2 : List Msg} :
     consecutiveFrom c (l1 ++ l2) ↔ consecutiveFrom c l1 ∧ consecutiveFrom (c + l1.length) l2 := by
   induction l1 generalizing c with
   | nil => simp [consecutiveFrom]
@@ -35,7 +35,7 @@ theorem consecutiveFrom.head {c : Nat} {l : List Msg} (h : consecutiveFrom c l) 
 theorem consecutiveFrom.getLast {c : Nat} {l : List Msg} (h : consecutiveFrom c l) {m : Msg}
     (hm : l.getLast? = some m) : m.off + 1 = c + l.length := by
   obtain ⟨ys, rfl⟩ := List.getLast?_eq_some_iff.1 hm
-  have := (consecutiveFrom_append.1 h).2
+  have := (consecutiveFrom_append_iff.1 h).2
   simp [consecutiveFrom] at this ⊢; omega
 
 theorem consecutiveFrom.drop {c : Nat} {l : List Msg} (h : consecutiveFrom c l) (n : Nat) :
